@@ -844,6 +844,21 @@ def same_name_constructor(ck, rid, ci, exceptions=()):
     return n_checked
 
 
+def norm_items(e):
+    """one spelling for a component of a loop element:  __elem__(X)[k]  (from `for r in X: r[k]`)  ->  __item__(__elem__(X), k)
+    (what `for a, b in X` gives for a / b)"""
+    import copy
+
+    class T(ast.NodeTransformer):
+        def visit_Subscript(self, n):
+            self.generic_visit(n)
+            if isinstance(n.slice, ast.Constant) and isinstance(n.slice.value, int) and isinstance(n.value, ast.Call) \
+                    and call_name(n.value) in ("__elem__", "__item__", "__val__"):
+                return ast.Call(func=ast.Name(id="__item__", ctx=ast.Load()), args=[n.value, n.slice], keywords=[])
+            return n
+    return T().visit(copy.deepcopy(e))
+
+
 def flow_expand_atom(fl, a, node):
     try:
         return fl.expand(a, node)
